@@ -231,9 +231,13 @@ func (res *Response) Less(idx1, idx2 int) bool {
 	for k := range res.request.Sort {
 		field := res.request.Sort[k]
 		var sortType DataType
-		if field.Group {
+		switch {
+		case field.Group:
 			sortType = StringCol
-		} else {
+		case field.Column != nil:
+			// the sort column is not necessarily one of the requested columns
+			sortType = field.Column.DataType
+		default:
 			sortType = res.request.RequestColumns[field.Index].DataType
 		}
 		switch sortType {
@@ -330,6 +334,14 @@ func (res *Response) PostProcessing() {
 			sort.Sort(res)
 			duration := time.Since(t1)
 			logWith(res).Debugf("sorting result took %s", duration.String())
+		}
+		// remove the columns which have been fetched for sorting only
+		if numCol := len(res.request.RequestColumns); numCol > 0 {
+			for i := range res.result {
+				if len(res.result[i]) > numCol {
+					res.result[i] = res.result[i][:numCol]
+				}
+			}
 		}
 	}
 
@@ -772,6 +784,7 @@ func (res *Response) BuildPassThroughResult(ctx context.Context) {
 			field.Index = j
 		} else {
 			field.Index = len(backendColumns) + len(virtualColumns)
+			columnsIndex[field.Column] = field.Index
 			if field.Column.StorageType == VirtualStore {
 				virtualColumns = append(virtualColumns, field.Column)
 			} else {
